@@ -14,7 +14,7 @@ open SalsaVerif.Model.CycleRev
 open SalsaVerif.Proofs.Cycle (EvalRel DbOkF DbOkC Reach IsFb)
 
 theorem evalRel_of_eval {env : Nat → Nat} {A : Nat → Nat → Prop} {ρ : Nat → Nat} :
-    ∀ (e : Cycle.Expr), (∀ c ∈ Cycle.callees env e, A c (ρ c)) →
+    ∀ (e : Cycle.Expr), (∀ c ∈ Cycle.callees env ρ e, A c (ρ c)) →
       EvalRel env A e (Cycle.evalExpr env ρ e) := by
   intro e
   induction e with
@@ -36,6 +36,18 @@ theorem evalRel_of_eval {env : Nat → Nat} {A : Nat → Nat → Prop} {ρ : Nat
     split
     · rename_i hc; rw [if_pos hc] at h; exact iha h
     · rename_i hc; rw [if_neg hc] at h; exact ihb h
+  | gate g a ihg iha =>
+    intro h
+    refine ⟨_, ihg (fun c hc => h c (by simp [Cycle.callees, hc])), ?_⟩
+    simp only [Cycle.evalExpr]
+    by_cases ho : Cycle.evalExpr env ρ g % 2 = 1
+    · rw [if_pos ho, if_pos ho]
+      apply iha
+      intro c hc
+      apply h c
+      simp only [Cycle.callees, if_pos ho, List.mem_append]
+      exact Or.inr hc
+    · rw [if_neg ho, if_neg ho]
 
 /-- the certified part of the table as an association list. -/
 def tab (s : St) (R : List Nat) : List (Nat × Nat) := R.map (fun x => (x, finalEnv s x))
@@ -56,9 +68,10 @@ theorem lookup_tab (s : St) (R : List Nat) (x : Nat) :
 theorem fbClosed_at {P : Prog} {s : St} {R : List Nat} (hc : fbClosedOn P s R = true) {x : Nat}
     (hx : x ∈ R) :
     ∃ v, finalVal s x = some v ∧
-      (∀ c ∈ Cycle.callees (envI s.inp) ((toCycle P).node x).body, c ∈ R) ∧
-      (Cycle.onCycle (toCycle P) (envI s.inp) x = true → v = Cycle.fallbackValue (toCycle P) x) ∧
-      (Cycle.onCycle (toCycle P) (envI s.inp) x = false →
+      (∀ c ∈ Cycle.callees (envI s.inp) (finalEnv s) ((toCycle P).node x).body, c ∈ R) ∧
+      (Cycle.onCycle (toCycle P) (envI s.inp) (finalEnv s) x = true →
+        v = Cycle.fallbackValue (toCycle P) x) ∧
+      (Cycle.onCycle (toCycle P) (envI s.inp) (finalEnv s) x = false →
         v = Cycle.evalExpr (envI s.inp) (finalEnv s) ((toCycle P).node x).body) := by
   unfold fbClosedOn at hc
   rw [List.all_eq_true] at hc
@@ -76,8 +89,10 @@ theorem fbClosed_at {P : Prog} {s : St} {R : List Nat} (hc : fbClosedOn P s R = 
       rw [if_neg (by rw [ho]; simp)] at this
       rw [toCycle_node]; simpa using this.2
 
-/-- **the certificate is the reference**, any state. -/
+/-- **the certificate is the reference**, any state (gate-free programs: the fallback theorems
+    of `Model/Cycle.lean` are proved for those). -/
 theorem fbClosed_reference (P : Prog) (s : St) (R : List Nat) (hW : (toCycle P).Wf)
+    (hG : (toCycle P).NoGate)
     (hA : SalsaVerif.Proofs.Cycle.allFb (toCycle P) = true) (hc : fbClosedOn P s R = true)
     (x w : Nat) (hx : x ∈ R) (hv : finalVal s x = some w) :
     w = Cycle.fbReference (toCycle P) (envI s.inp) x := by
@@ -101,8 +116,10 @@ theorem fbClosed_reference (P : Prog) (s : St) (R : List Nat) (hW : (toCycle P).
     have huv : u = v := by
       have := hfin y hy u hu; rw [hfv] at this; cases this; rfl
     subst huv
-    cases ho : Cycle.onCycle (toCycle P) (envI s.inp) y with
-    | true => exact Or.inl ⟨SalsaVerif.Proofs.Cycle.onCycle_sound _ _ y ho, hon ho⟩
+    cases ho : Cycle.onCycle (toCycle P) (envI s.inp) (finalEnv s) y with
+    | true =>
+      refine Or.inl ⟨SalsaVerif.Proofs.Cycle.onCycle_sound _ _ y ?_, hon ho⟩
+      rw [← ho]; exact SalsaVerif.Proofs.Cycle.onCycle_noGate hG _ _ y
     | false =>
       right
       rw [hoff ho]
@@ -114,6 +131,8 @@ theorem fbClosed_reference (P : Prog) (s : St) (R : List Nat) (hW : (toCycle P).
     · intro y u hu c hcc
       have hy := hmem y u hu
       obtain ⟨v, _, hcal, _, _⟩ := fbClosed_at hc hy
+      rw [Cycle.callees_noGate (envI s.inp) _ (finalEnv s) _
+        (SalsaVerif.Proofs.Cycle.noGate_node hG y)] at hcc
       rw [lookup_tab, if_pos (hcal c hcc)]; rfl
     · intro y u hu hr _
       have hy := hmem y u hu
@@ -121,10 +140,12 @@ theorem fbClosed_reference (P : Prog) (s : St) (R : List Nat) (hW : (toCycle P).
       have huv : u = v := by
         have := hfin y hy u hu; rw [hfv] at this; cases this; rfl
       subst huv
-      exact hon ((SalsaVerif.Proofs.Cycle.onCycle_iff hW y).2 hr)
+      apply hon
+      rw [SalsaVerif.Proofs.Cycle.onCycle_noGate hG (finalEnv s) SalsaVerif.Proofs.Cycle.ρ0 y]
+      exact (SalsaVerif.Proofs.Cycle.onCycle_iff hW y).2 hr
   have hl : (tab s R).lookup x = some w := by
     rw [lookup_tab, if_pos hx]; unfold finalEnv; rw [hv]; rfl
-  exact (SalsaVerif.Proofs.Cycle.dbOk_fbReference hW
+  exact (SalsaVerif.Proofs.Cycle.dbOk_fbReference hW hG
     (SalsaVerif.Proofs.Cycle.allFb_cycFb hA _) hF hC hl).symm
 
 end SalsaVerif.Proofs.CycleRev
